@@ -1153,7 +1153,9 @@ class QueryBuilder(Selectable, Term):  # type:ignore[misc]
 
         elif 0 < len(self._groupbys) and isinstance(self._groupbys[-1], Rollup):
             # If a rollup was added last, then append the new terms to the previous rollup
-            self._groupbys[-1].args += terms
+            rollup = copy(self._groupbys[-1])
+            rollup.args = rollup.args + list(terms)
+            self._groupbys[-1] = rollup
 
         else:
             self._groupbys.append(Rollup(*terms))  # type:ignore[arg-type]
